@@ -142,6 +142,15 @@ def run(ctx, R, tier):
     ok = (len(pr_branch) >= 1 and brackets_printed) == bool(pa_branch) and bool(pa_branch)
     R.check(ok, "C19-R3", "ipv6-brackets", "hosts containing ':' are printed in brackets exactly because the parser has a bracket branch", loc.loc(),
             "bracket branch in printer: %d (brackets emitted: %s), in parser: %d" % (len(pr_branch), brackets_printed, len(pa_branch)))
+    badfmt = []
+    for fn in (loc, st_):
+        for n in walk_no_nested(fn.node):
+            if isinstance(n, ast.BinOp) and isinstance(n.op, ast.Mod) and not (isinstance(n.left, ast.Constant) and isinstance(n.left.value, str)):
+                badfmt.append((fn, n))
+            if isinstance(n, ast.Call) and isinstance(n.func, ast.Attribute) and n.func.attr in ("format", "format_map") and not isinstance(n.func.value, ast.Constant):
+                badfmt.append((fn, n))
+    R.check(not badfmt, "C19-R3", "printer|constant-format-strings", "the text form is built with constant format strings only (URI data is never part of a format string)", loc.loc(),
+            "`%s`: a part of the URI (e.g. a host containing '%%') is interpreted as a format string, so printing fails or silently changes the text" % (unparse(badfmt[0][1]) if badfmt else ""))
     ints = [n for n in walk_no_nested(pl.node) if isinstance(n, ast.Call) and isinstance(n.func, ast.Name) and n.func.id == "int" and "port" in unparse(n)]
     R.check(bool(ints), "C19-R3", "integer-port", "the port is converted with int() by the parser", pl.loc(), "the parser no longer converts the port with int()")
 
